@@ -47,6 +47,36 @@ Theorem c11_undecodable_ends_connection : forall (f : fixes) (pre : list ev) (m 
   is_running s = false /\ (getop s o = Some c -> o_reply c <> OsEmpty /\ o_chan c = false).
 Proof. exact ConnWire.c11_undecodable_ends_connection. Qed.
 
+(* "input that is not a well-formed LDAPMessage envelope ends the connection with a decoding error", decoder side (repair F38): whatever is
+   delivered is an envelope - universal SEQUENCE, message id with content octets in 0 .. 2^31-1 first, protocol op, then nothing, the
+   controls, or Active Directory's stray [10] - and an element of any other shape is a decoding error *)
+Theorem c11_delivered_is_envelope : forall m buf mid op cs rest, decode_inner' (repaired_d m) buf = DFrame mid op cs rest ->
+  exists env, parse_tag' (lim true m) 0 (S (length buf)) buf = POk (env, rest) /\ Envelope env (mid, op, cs).
+Proof. exact FrameFixed.c11_delivered_is_envelope. Qed.
+Theorem c11_not_envelope_is_error : forall m buf env rest, parse_tag' (lim true m) 0 (S (length buf)) buf = POk (env, rest) ->
+  (forall v, ~ Envelope env v) -> decode_inner' (repaired_d m) buf = DErr.
+Proof. exact FrameFixed.c11_not_envelope_is_error. Qed.
+(* length octets are never folded: what the length parser returns is the value they denote, below 2^64 *)
+Theorem c11_length_honest : forall b r n r', parse_length (b :: r) = POk (n, r') -> (128 <= bN b)%N ->
+  let k := N.to_nat (bN b - 128) in n = be_value (firstn k r) /\ r' = skipn k r /\ (n < 2^64)%N /\ (0 < k)%nat.
+Proof. exact Ber.parse_length_honest. Qed.
+(* as found *)
+Theorem c11_refuted_F38 :
+  let resp := C Application 1 [P Universal 10 [x00]; P Universal 4 []; P Universal 4 []] in
+  decode_inner' (repaired_d_but38 100) (b [112; 12; 2; 1; 1; 97; 7; 10; 1; 0; 4; 0; 4; 0]) = DFrame 1 resp [] [] /\
+  decode_inner' (repaired_d_but38 100) (b [48; 14; 4; 0; 2; 1; 1; 97; 7; 10; 1; 0; 4; 0; 4; 0]) = DFrame 1 resp [] [] /\
+  decode_inner' (repaired_d_but38 100) (b [48; 11; 2; 0; 97; 7; 10; 1; 0; 4; 0; 4; 0]) = DFrame 0 resp [] [] /\
+  decode_inner' (repaired_d 100) (b [112; 12; 2; 1; 1; 97; 7; 10; 1; 0; 4; 0; 4; 0]) = DErr /\
+  decode_inner' (repaired_d 100) (b [48; 14; 4; 0; 2; 1; 1; 97; 7; 10; 1; 0; 4; 0; 4; 0]) = DErr /\
+  decode_inner' (repaired_d 100) (b [48; 11; 2; 0; 97; 7; 10; 1; 0; 4; 0; 4; 0]) = DErr /\
+  decode_inner' (repaired_d 100) (b [48; 12; 2; 1; 1; 97; 7; 10; 1; 0; 4; 0; 4; 0]) = DFrame 1 resp [] [].
+Proof. exact FrameFixed.c11_refuted_F38. Qed.
+Theorem c11_refuted_F38_length : let i := map byte_of_N [137; 1; 0; 0; 0; 0; 0; 0; 0; 12; 48]%N in
+  parse_length_asfound i = POk (12%N, [byte_of_N 48]) /\ parse_length i = PErr /\
+  parse_length (map byte_of_N [137; 0; 0; 0; 0; 0; 0; 0; 0; 12; 48]%N) = POk (12%N, [byte_of_N 48]) /\
+  parse_length_asfound (map byte_of_N [128; 48]%N) = POk (0%N, [byte_of_N 48]) /\ parse_length (map byte_of_N [128; 48]%N) = PErr.
+Proof. exact Ber.c11_refuted_F38_length. Qed.
+
 Print Assumptions c11_decode_no_panic.
 Print Assumptions c11_driver_never_panics.
 Print Assumptions c11_decode_no_wedge.
@@ -54,3 +84,8 @@ Print Assumptions c11_depth_bounded.
 Print Assumptions c11_repairs_reject_nothing_valid.
 Print Assumptions c11_bytes_never_panic.
 Print Assumptions c11_undecodable_ends_connection.
+Print Assumptions c11_delivered_is_envelope.
+Print Assumptions c11_not_envelope_is_error.
+Print Assumptions c11_length_honest.
+Print Assumptions c11_refuted_F38.
+Print Assumptions c11_refuted_F38_length.
